@@ -173,10 +173,65 @@ def _select_check(c, key_fields, issues, node):
     return "other%sself" % op
 
 
+def _noln(n):
+    if isinstance(n, dict):
+        return {k: _noln(v) for k, v in n.items() if k != "ln"}
+    if isinstance(n, list):
+        return [_noln(v) for v in n]
+    return n
+
+
+def _as_select(e):
+    """`match X.cmp(&Y) { Greater => T, Less | Equal => E }` (any arm order, `_` for the rest, equal-bodied arms merged) read as the
+    `if X > Y { T } else { E }` it spells; likewise `<`, `>=`, `<=`.  Anything else is returned unchanged."""
+    if not (isinstance(e, dict) and e.get("k") == "Match" and is_mc(strip(e.get("e")), "cmp", 1)):
+        return e
+    sc = strip(e["e"])
+    groups = []     # [(set of outcomes | None for wildcard, body)]
+    for arm in e["arms"]:
+        if arm.get("guard") is not None:
+            return e
+        pat = arm["pat"]
+        cases = pat["cases"] if pat.get("k") == "POr" else [pat]
+        names = set()
+        for c in cases:
+            if c.get("k") == "PWild":
+                names = None
+                break
+            if c.get("k") != "PPath" or c["p"].rsplit("::", 1)[-1] not in ("Greater", "Less", "Equal"):
+                return e
+            names.add(c["p"].rsplit("::", 1)[-1])
+        for g in groups:
+            if _noln(g[1]) == _noln(arm["body"]) and g[0] is not None:
+                if names is None:
+                    g[0] = None
+                else:
+                    g[0] |= names
+                break
+        else:
+            groups.append([names, arm["body"]])
+    if len(groups) != 2:
+        return e
+    seen = set().union(*[g[0] for g in groups if g[0] is not None])
+    for g in groups:
+        if g[0] is None:
+            g[0] = {"Greater", "Less", "Equal"} - seen
+    if groups[0][0] | groups[1][0] != {"Greater", "Less", "Equal"} or groups[0][0] & groups[1][0]:
+        return e
+    ops = {frozenset(["Greater"]): ">", frozenset(["Less"]): "<", frozenset(["Greater", "Equal"]): ">=", frozenset(["Less", "Equal"]): "<="}
+    # the branch taken on a strict outcome is the `then` branch
+    order = sorted(groups, key=lambda g: len(g[0]))
+    op = ops.get(frozenset(order[0][0]))
+    if op is None:
+        return e
+    cond = {"k": "Binary", "op": op, "l": sc["recv"], "r": sc["args"][0], "ln": e.get("ln")}
+    return {"k": "If", "c": cond, "then": order[0][1], "else": order[1][1], "ln": e.get("ln")}
+
+
 def _argmax_whole(f):
     st = body_stmts(f)
     issues = []
-    e = tail(st)
+    e = _as_select(tail(st))
     expect(len(st) == 1 and e.get("k") == "If" and e.get("else") is not None, "expected `if other > self { *other } else { *self }`", e)
     _select_check(e["c"], (), issues, e)
     t = acc(A.simplify(e["then"]))
@@ -190,7 +245,7 @@ def _argmax_field(key):
     def rec(f):
         st = body_stmts(f)
         issues = []
-        e = tail(st)
+        e = _as_select(tail(st))
         expect(len(st) == 1 and e.get("k") == "If" and e.get("else") is not None, "expected `if other.%s > self.%s { other.clone() } else { self.clone() }`" % (key, key), e)
         _select_check(e["c"], (key,), issues, e)
         t = A.simplify(e["then"])
@@ -223,6 +278,15 @@ def _pointwise_max_fold(f, field):
     vp = clo["params"][1]["elems"][1]
     vname = vp["p"]["n"] if vp["k"] == "PRef" else vp.get("n")
     body = clo["body"]
+    if body.get("k") == "Block" and len(body["stmts"]) == 3:
+        # `let entry = acc.entry(*k).or_insert(0); *entry = (*entry).max(v); acc` - the loop body itself
+        issues = []
+        _max_fold_body({"body": {"stmts": body["stmts"][:2]}, "pat": clo["params"][1], "ln": clo.get("ln")}, m, issues)
+        expect(acc(body["stmts"][2].get("e")) == (m, ()), "fold closure must return the accumulator", clo)
+        res = tail(st)
+        expect(res.get("k") == "Struct" and len(res["fields"]) == 1 and res["fields"][0]["n"] == field and acc(res["fields"][0]["e"]) == (x, ()),
+               "result must be `{ %s: <folded> }`" % field, res)
+        return "{%s: pointwise_max(A.%s, B.%s)}" % (field, field, field), issues
     expect(body.get("k") == "Block" and len(body["stmts"]) == 2, "fold body must be `acc.entry(k).and_modify(max).or_insert(v); acc`", clo)
     e0 = body["stmts"][0].get("e")
     expect(is_mc(e0, "or_insert", 1) and acc(e0["args"][0]) == (vname, ()) and is_mc(strip(e0["recv"]), "and_modify", 1) and is_mc(strip(strip(e0["recv"])["recv"]), "entry", 1),
@@ -635,6 +699,54 @@ def _optlift_chain(e, name):
     return op
 
 
+def _clo_expr(c, nparams, what, name):
+    c = strip(c)
+    expect(c.get("k") == "Closure" and len(c.get("params") or []) == nparams, "field %s: %s must be a %d-parameter closure" % (name, what, nparams), c)
+    b = c["body"]
+    if b.get("k") == "Block":
+        expect(len(b["stmts"]) == 1, "field %s: %s must be one expression" % (name, what), c)
+        b = b["stmts"][0].get("e") or b["stmts"][0]
+    return [pname(q) for q in (c.get("params") or [])], strip(b)
+
+
+def _optlift_nested(e, name):
+    """the four-case lift written as   X.map(|a| Y.map_or_else(|| a[.clone()], |b| a.op(b))).or_else(|| Y[.clone()])   (or `.or(Y)`):
+    X present: joined with Y if present, kept otherwise; X absent: Y as it is.  X, Y = the field on the two sides (either way round)."""
+    e = strip(e)
+    if not (isinstance(e, dict) and e.get("k") == "MethodCall" and e["m"] in ("or", "or_else") and len(e["args"]) == 1):
+        return None
+    mp = strip(e["recv"])
+    if not is_mc(mp, "map", 1):
+        return None
+    x = _side(mp["recv"])
+    if x is None:
+        return None
+    try:
+        (a,), inner = _clo_expr(mp["args"][0], 1, "map closure", name)
+    except Shape:
+        return None
+    if not is_mc(inner, "map_or_else", 2):
+        return None
+    y = _side(inner["recv"])
+    expect(y is not None and {x[0], y[0]} == {"self", "other"} and x[1] == y[1] == (name,),
+           "field %s: the nested lift must pair self.%s with other.%s (found %s / %s)" % (name, name, name, x, y), e)
+    _, keep = _clo_expr(inner["args"][0], 0, "the absent-case closure", name)
+    while is_mc(keep, "clone", 0):
+        keep = strip(keep["recv"])
+    expect(acc(keep) == (a, ()), "field %s: when the other side is absent the present value must be kept as it is" % name, inner)
+    (b,), join = _clo_expr(inner["args"][1], 1, "the join closure", name)
+    expect(join.get("k") == "MethodCall" and len(join.get("args", [])) == 1 and {acc(join["recv"]), acc(join["args"][0])} == {(a, ()), (b, ())},
+           "field %s: the join closure must be |b| a.op(b)" % name, inner)
+    if e["m"] == "or":
+        fb = _side(e["args"][0])
+    else:
+        _, fbe = _clo_expr(e["args"][0], 0, "the or_else closure", name)
+        fb = _side(fbe)
+    expect(fb is not None and fb == y, "field %s: the fallback must be the other side's value of the same field (found %s, expected %s): a value present "
+           "on one side only would be lost" % (name, fb, y), e)
+    return join["m"]
+
+
 def _optlift_helper(e, name):
     """the same lift written once as a generic helper: `helper(&self.f, &other.f, |a, b| a.op(b))` where
     `fn helper(l: &Option<T>, r: &Option<T>, join: impl FnOnce(&T, &T) -> T) -> Option<T>` has the canonical four-case match
@@ -697,6 +809,9 @@ def _optlift(e, name):
     viac = _optlift_chain(e, name)
     if viac is not None:
         return viac
+    vian = _optlift_nested(e, name)
+    if vian is not None:
+        return vian
     expect(e.get("k") == "Match" and e["e"].get("k") == "Tuple" and len(e["e"]["elems"]) == 2, "field %s: expected match (self.%s, other.%s)" % (name, name, name), e)
     a, b = acc(e["e"]["elems"][0]), acc(e["e"]["elems"][1])
     expect(a == ("self", (name,)) and b == ("other", (name,)), "field %s: scrutinee must be (self.%s, other.%s), found %s/%s" % (name, name, name, a, b), e)
